@@ -2470,6 +2470,7 @@ impl<Front: SocketHandler> ConnectionH2<Front> {
                 }
                 let (size, status) = self.socket.socket_read(&mut kawa.storage.space()[..amount]);
                 context.debug.push(DebugEvent::SocketIO(0, did, size));
+                context.read_progress = context.read_progress.wrapping_add(size);
                 kawa.storage.fill(size);
                 self.position.count_bytes_in_counter(size);
                 self.bytes.zero_bytes_read += size;
